@@ -37,6 +37,7 @@ func SoyFile(name, text string) (node *ast.SoyFileNode, err error) {
 		aliases: make(map[string]string),
 		lex:     lex(name, text),
 	}
+	defer verifParseReturn(t.lex, &err)
 	defer t.recover(&err)
 	t.root = t.itemList(itemEOF)
 	t.lex = nil
@@ -784,6 +785,7 @@ func (t *tree) parseHeaderParam(token item) ast.Node {
 // For example, string, list or map literals, arithmetic, boolean operations, etc.
 func Expr(str string) (node ast.Node, err error) {
 	var t = &tree{lex: lexExpr("", str)}
+	defer verifParseReturn(t.lex, &err)
 	defer t.recover(&err)
 	return t.parseExpr(0), err
 }
@@ -1163,6 +1165,7 @@ func (t *tree) next() item {
 		t.peekCount--
 	} else {
 		t.token[0] = t.lex.nextItem()
+		verifLex("next", t.lex, int(t.token[0].typ), 0)
 	}
 	return t.token[t.peekCount]
 }
@@ -1194,6 +1197,7 @@ func (t *tree) peek() item {
 	}
 	t.peekCount = 1
 	t.token[0] = t.lex.nextItem()
+	verifLex("next", t.lex, int(t.token[0].typ), 0)
 	return t.token[0]
 }
 
